@@ -23,7 +23,7 @@ RULE = (
     "unisolvent lattice subsets with ncoef and ncoef+1 points (tensor lattices minus one point for N = 3, 4), evaluated on a lattice "
     "twice the data extent. Non-trivial: compared cases (conditioning within the comparable band)."
 )
-ASSUMPTIONS = ["tolerance 256 * cond * eps * max|data| with cond the condition number of the unit-variance-column-scaled Jacobian computed by the "
+ASSUMPTIONS = ["tolerance 1024 * cond * eps * max|data| with cond the condition number of the unit-variance-column-scaled Jacobian computed by the "
                "reference SVD; systems with cond > 1e10 or singular are counted as not compared",
                "KNeighbors / Linear / Cubic: 1e-12 * max|data|; Cubic uses SciPy's iterative gradient estimate, exact at the nodes"]
 
@@ -49,6 +49,8 @@ CONFIGS = (
     [["Spline", {}], ["Spline", {"mindist_rel": 1e-3}]]
     + [["VectorSpline2D", {"poisson": nu, "mindist_rel": md}] for nu in (-1.0, 0.0, 0.5, 1.0) for md in (1e-3, 0.25)]
     + [["KNeighbors", {"k": 1}]]
+    # forces given EXPLICITLY at the data points, in another order (the system is square but not symmetric): seed C01-r2_2
+    + [["Spline", {"forces_at_data": "reversed"}], ["VectorSpline2D", {"poisson": 0.5, "mindist_rel": 0.25, "forces_at_data": "rolled"}]]
     + [[c, {"rescale": r}] for c in ("Linear", "Cubic") for r in (False, True)]
     + [["Chain", {"steps": [["Trend", {"degree": 1}], ["Spline", {}]]}],
        ["Chain", {"steps": [["Trend", {"degree": 0}], ["KNeighbors", {"k": 1}]]}],
@@ -136,6 +138,9 @@ def _data_vectors(npts):
     vecs = [np.eye(npts)[i] for i in range(npts)]
     vecs.append(np.arange(1.0, npts + 1))
     vecs.append(np.array([(-1.0) ** i * 10.0 ** ((i * 5) % 7 - 3) for i in range(npts)]))
+    # "all finite data values": very small and very large magnitudes (seed C04-r2_2: an absolute is-it-zero test)
+    vecs.append(np.arange(1.0, npts + 1) * 1e-13)
+    vecs.append(np.arange(1.0, npts + 1)[::-1] * 1e11)
     return vecs
 
 
@@ -180,10 +185,16 @@ def _exactness(rec, spec, e, n, ext, shape, what, prefit=False):
         else:
             comps = [v, v[::-1] * 3.0 + 1.0][:nc]
             data = tuple(rs(c) for c in comps)
-        est = build(spec, ext)
+        if "forces_at_data" in spec[1]:
+            kw_ = {k: v for k, v in spec[1].items() if k != "forces_at_data"}
+            perm = np.arange(npts)[::-1] if spec[1]["forces_at_data"] == "reversed" else np.roll(np.arange(npts), 1)
+            kw_["force_coords"] = (e[perm].copy(), n[perm].copy())
+            est = build([spec[0], kw_], ext)
+        else:
+            est = build(spec, ext)
         # (VectorSpline2D documents that it keeps the force locations of its first fit, so a refitted instance is not an
         # "interpolator with forces at the data points" any more: outside this property, decided by C20)
-        if prefit and npts > 2 and "VectorSpline2D" not in str(spec):
+        if prefit and npts > 2 and "VectorSpline2D" not in str(spec) and "forces_at_data" not in spec[1]:
             # the same instance has seen another, smaller point set before: a refit must behave like a first fit
             k0 = npts - 1
             pc = (e[:k0] * 0.5 + 0.25 * ext, n[:k0] * 0.5 - 0.125 * ext)
@@ -212,7 +223,7 @@ def _exactness(rec, spec, e, n, ext, shape, what, prefit=False):
         else:
             preds1 = []
         scale = max(float(np.max(np.abs(c))) for c in comps)
-        tol = R.tol(cond, scale) if lsq else 1e-12 * scale
+        tol = R.tol(cond, scale, 1024.0) if lsq else 1e-12 * scale
         for c, p in zip(comps, preds):
             p = np.asarray(p)
             rec.check(p.shape == coords[0].shape, "%s: prediction shape %s != %s" % (what, p.shape, coords[0].shape))
